@@ -312,6 +312,10 @@ def gen_core_variant(rng, tier, cdc=False):
         pc["cd"] = "usr0"
         sysp = core["clk_period_ps"]
         usrp = rng.choice([sysp * 2, sysp * 3, sysp // 2, sysp // 4, sysp, sysp + 13, rng.randint(sysp // 8, sysp * 8)])
+        if conv and udw < ndw and rng.random() < 0.85:
+            # up-converted + clock-crossed port: keep the user clock clearly faster than sys in most runs
+            # (see known finding cdc-upconv-write-lead for what happens otherwise)
+            usrp = sysp // rng.choice([2, 3, 4, 8])
         clocks = {"usr0": {"period": usrp, "phase": rng.randrange(usrp)}}
     nb = 1 << info["bankbits"]
     nrows = 1 << info["rowbits"]
